@@ -60,7 +60,8 @@ OPS = ["add_objects", "commit_tree", "porcelain_commit", "ref_set", "ref_cas",
        "pack_loose", "repack", "gc", "gc_default_grace", "prune",
        "index_write", "config_write", "commit_graph", "midx", "fetch_local",
        "tag_create", "branch_delete_packed", "two:commit+pack_refs",
-       "two:add_pack+gc", "detach_head", "attach_head"]
+       "two:add_pack+gc", "detach_head", "attach_head", "stash_push",
+       "stash_push_second"]
 
 
 REDO_OPS = ("add_objects", "add_thin_pack", "add_pack", "fetch_local")
@@ -279,6 +280,10 @@ def run_op(name, r, sc, plan):
         # git checkout --detach <commit>, the ref part of it
         porcelain.update_head(r, sc.hist["commits"][0].decode(),
                               detached=True)
+    elif name in ("stash_push", "stash_push_second"):
+        with open(os.path.join(sc.path, "w1.txt"), "ab") as f:
+            f.write(b"stashed change\n")
+        porcelain.stash_push(r)
     elif name == "attach_head":
         porcelain.update_head(r, b"old")
     elif name == "tag_create":
@@ -527,6 +532,14 @@ def run_plan(plan):
             sc.u.add_to_store(rr.object_store, sorted(sc.u.closure([sc.newc])))
             rr.refs[b"refs/heads/b0"] = sc.newc
             rr.refs[b"refs/heads/side"] = sc.hist["commits"][0]
+            rr.close()
+        if plan["op"] == "stash_push_second":
+            # an earlier stash: refs/stash has an old value worth keeping
+            from dulwich import porcelain
+            with open(os.path.join(sc.path, "w1.txt"), "ab") as f:
+                f.write(b"first stashed change\n")
+            rr = Repo(sc.path)
+            porcelain.stash_push(rr)
             rr.close()
         rp = sc.path
         old_refs = refs_raw(rp)
